@@ -14,6 +14,16 @@ fn usage() -> ! {
 }
 
 fn main() {
+	// a panic that escapes the per-case catch_unwind is a crash of the harness: inconclusive
+	if std::panic::catch_unwind(real_main).is_err() {
+		let last = runner::LAST_PANIC_ANYWHERE.lock().map(|g| g.clone()).unwrap_or_default();
+		let n = last.len();
+		eprintln!("INCONCLUSIVE harness crashed; most recent panics: {:?}", &last[n.saturating_sub(4)..]);
+		std::process::exit(2);
+	}
+}
+
+fn real_main() {
 	let args: Vec<String> = std::env::args().skip(1).collect();
 	if args.is_empty() {
 		usage();
